@@ -120,7 +120,7 @@ func (g *sgen) depr() string {
 }
 
 var scalarDefaults = map[string][]string{
-	"Int": {"3", "-7", "0"}, "Float": {"1.5", "-0.25", "2"}, "String": {`"abc"`, `""`, `"q\"uote \\ back"`, `"unié"`}, "Boolean": {"true", "false"}, "ID": {`"id1"`, "5"},
+	"Int": {"3", "-7", "0"}, "Float": {"1.5", "-0.25", "2"}, "String": {`"abc"`, `""`, `"q\"uote \\ back"`, `"unié"`, `"^\\d+$"`, `"line\nbreak"`, `"tab\there"`, `"\u00e9t\u00e9"`}, "Boolean": {"true", "false"}, "ID": {`"id1"`, "5"},
 	"Color": {"RED", "BLUE"}, "Date": {`"2020-01-01"`, "12", `{y: 2020}`},
 }
 
